@@ -880,6 +880,23 @@ func (cs *ContractSet) parseContractText(pkgPath, file string, lines []string, l
 					return fmt.Errorf("%s:%d: apply-at needs lemma(args...)", file, line)
 				}
 				cur.AtCalls = append(cur.AtCalls, &AtCall{AtText: frag, Clause: c, Apply: true})
+			case "assert-at":
+				// assert-at "<source text>" [label] e: before the first instruction of the (unique) line of the
+				// function that contains the text, e must hold (names denote the current values of locals)
+				r := strings.TrimSpace(rest)
+				if !strings.HasPrefix(r, "\"") {
+					return fmt.Errorf("%s:%d: assert-at needs a quoted source fragment", file, line)
+				}
+				end := strings.Index(r[1:], "\"")
+				if end < 0 {
+					return fmt.Errorf("%s:%d: assert-at: unterminated fragment", file, line)
+				}
+				frag := r[1 : 1+end]
+				c, err := parseClause(strings.TrimSpace(r[end+2:]), file, line)
+				if err != nil {
+					return err
+				}
+				cur.AtCalls = append(cur.AtCalls, &AtCall{AtText: frag, Clause: c})
 			case "apply-at-call":
 				// apply-at-call <callee> lemma(arg, ...): just before each call of <callee>, the (separately
 				// proved) lemma is instantiated with the argument values of that program point
